@@ -473,6 +473,8 @@ func init() {
 					}
 					z[2] = makeReflectType(rtype{st.Field(i).Type()})
 					z[3] = st.Tag(i)
+					z[5] = []value{i} // Index
+					z[6] = st.Field(i).Anonymous()
 					return tuple{z, true}
 				}
 			}
